@@ -436,7 +436,7 @@ pub fn matmul(
     {
         // if transposing both, use the identity A^T.B^T = (A.B)^T
         if transpose_a && transpose_b {
-            return transpose(&matmul(a, b, rows_a, rows_b, false, false), cols_a);
+            return transpose(&matmul(b, a, rows_b, rows_a, false, false), rows_b);
         }
 
         let m = if transpose_a { cols_a } else { rows_a };
